@@ -37,6 +37,6 @@ for k in sorted(c['claimed']):
 out.append("**Not applicable** (section 6 and `MANIFEST.json`): "+", ".join(sorted(c['not_applicable']))+".\n")
 try:
     t=open('/verif/tools/thorough_last.txt').read().strip().split('\n')
-    out.append('\n### 10.5 Last full run of the thorough tier\n\nEvery registered thorough obligation set was run once more at the end (background snapshot of the committed /verif against /repo HEAD, 16 cores, cross-solver sampling with z3 4.8.12 and cvc5 enabled); a check is listed when it finished. All listed runs exited 0 with no inconclusive, UNCONFIRMED or ENGINE-ERROR line. Summary lines (tools/thorough_last.txt):\n\n```\n'+'\n'.join(t)+'\n```\n')
+    out.append('\n### 10.5 Last full run of the thorough tier\n\nEvery registered thorough obligation set was run once more at the end (background snapshot of the committed /verif against /repo HEAD, 16 cores, cross-solver sampling with z3 4.8.12 and cvc5 enabled); a check is listed when it finished. All listed runs exited 0 with no inconclusive, UNCONFIRMED or ENGINE-ERROR line. Two obligations were added after this run (session 3): VerifC06Seq_* and VerifC04Text_3; both belong to the quick tier (which the thorough tier includes) and ran clean there (evidence/C06.json, evidence/C04.json); the thorough lines of C04 and C06 below predate them. Summary lines (tools/thorough_last.txt):\n\n```\n'+'\n'.join(t)+'\n```\n')
 except Exception: pass
 open('/verif/DESIGN.md','w').write(s+''.join(out))
